@@ -1398,7 +1398,23 @@ class Engine:
         return K["next"](st)
 
     def ex_Delete(self, node, st, K):
-        self.dropped.append("del@%d" % node.lineno)
+        if all(isinstance(t, ast.Name) for t in node.targets):
+            self.dropped.append("del@%d" % node.lineno)          # `del name`: frees memory; the name is not read again (not tracked)
+            return K["next"](st)
+        for t in node.targets:
+            if isinstance(t, ast.Name):
+                continue
+            if not (isinstance(t, ast.Subscript) and isinstance(t.slice, ast.Slice) and t.slice.step is None):
+                raise Unsupported("del of %s (line %d)" % (type(t).__name__, node.lineno))
+            base = self.ev(t.value, st)
+            if not (isinstance(base, VRef) and isinstance(st.heap[base.addr], HSeq) and not st.heap[base.addr].numpy):
+                raise Unsupported("del of a slice of %r (line %d)" % (base, node.lineno))
+            o = st.heap[base.addr]
+            lo, hi = self.slice_bounds(o.len, t.slice, st)
+            cut = z3.If(hi > lo, hi - lo, 0)
+            g = o.get
+            # the entries lo..hi-1 are removed, later ones move down
+            st.heap[base.addr] = HSeq(z3.simplify(o.len - cut), lambda k, lo=lo, cut=cut, g=g: g(z3.If(k < lo, k, k + cut)), etype=o.etype)
         return K["next"](st)
 
     def ex_Assert(self, node, st, K):
